@@ -133,6 +133,17 @@ class SingleFunctionHandler:
         self.handler = handler
         self.args = self.__args__ = args
 
+    def __eq__(self, other):
+        # Exactly[A] written twice is one and the same type
+        return (
+            type(self) is type(other)
+            and self.handler is other.handler
+            and self.args == other.args
+        )
+
+    def __hash__(self):
+        return hash((self.handler, self.args))
+
     def __type_order__(self, other):
         results = self.handler(other, *self.args)
         if isinstance(results, TypeRelationship):
